@@ -12,7 +12,10 @@ for d in sorted(glob.glob(pat)):
     if d.startswith('/verif/seeded/'):
         name = os.path.basename(d.rstrip('/')); prop = name.split('-')[0]
     else:
-        prop = d.split('seed-out-')[1].split('/')[0]; i = d.rstrip('/').split('/')[-1]
+        if 'seed2-out-' in d:      # second round of seeders: numbered after the first three
+            prop = d.split('seed2-out-')[1].split('/')[0]; i = str(int(d.rstrip('/').split('/')[-1]) + 3)
+        else:
+            prop = d.split('seed-out-')[1].split('/')[0]; i = d.rstrip('/').split('/')[-1]
         name = '%s-%s' % (prop, i)
     if not os.path.exists(os.path.join(d, 'meta.json')): continue
     dst = os.path.join(out, name); os.makedirs(dst, exist_ok=True)
